@@ -18,6 +18,7 @@ back to connectors and junctions.
 Not decided: that the MTST / improver produce a tree over all terminals; junction positions; cycles in user-built hyperedges.
 """
 import itertools
+import re
 from fractions import Fraction
 
 from ..astq import strip, strip_casts, calls, call_args, call_object, norm, writes, written_field, literal_value
@@ -936,6 +937,34 @@ def rule_recommended_position(chk, prog):
                                 "after setRecommendedPosition((30,40)) the junction recommends (%s,%s)" % ((got.f["x"], got.f["y"]) if isinstance(got, Obj) else ("?", "?")))
 
 
+def rule_shift_takes_in_terminal(chk, prog):
+    from ..rules.guards import path_condition, atoms
+    r = chk.rule("SHIFT-TAKES-IN-IMMOVABLE", "HyperedgeShiftSegment::adjustPosition merges the tree nodes it finds at its new position into the segment; "
+                 "when such a node is immovable (a terminal, a fixed junction) the segment becomes immovable with it (`isImmovable = true` "
+                 "under node->isImmovable(), in the block that inserts the node) -- otherwise the next shift drags the terminal off its "
+                 "attachment point", floor=1)
+    fn = prog.fn("Avoid::HyperedgeShiftSegment::adjustPosition")
+    ins = [c for c in calls(fn) if re.search(r"::insert(<|$)", str(c.get("cname", ""))) and call_object(c) is not None and norm(call_object(c)) == "nodes"]
+    if not ins:
+        raise AnalysisBroken("adjustPosition: the insertion of reached nodes into the segment was not found")
+    r.count()
+    sets = []
+    for lhs, node, op in writes(fn):
+        if op == "=" and written_field(lhs)[0] == "Avoid::HyperedgeShiftSegment::isImmovable" and literal_value(node["ch"][1]) == "true":
+            ats = atoms(path_condition(fn, node, inline=False))
+            if any(a.endswith(".isImmovable()") for a in ats):
+                sets.append(node)
+    blk_ok = False
+    for st in sets:
+        for c in ins:
+            blk = [a for a in fn.ancestors(c) if a.get("k") == "CompoundStmt"][0]
+            if any(x is st for x in walk(blk)):
+                blk_ok = True
+    (r.ok if blk_ok else r.bad)("segment inherits immovability", fn.loc(ins[0]), "" if blk_ok else
+                                "a node taken into the segment does not make the segment immovable when the node is: a terminal merged into a shifting "
+                                "segment is moved with it")
+
+
 def rule_improver_lists_fresh(chk, prog):
     r = chk.rule("IMPROVER-LISTS-FRESH", "Router::rerouteAndCallbackConnectors clears the hyperedge improver (its lists of new / deleted objects) on EVERY "
                  "path, whatever the improvement options say: the lists handed out by newAndDeletedObjectListsFromHyperedgeImprovement() "
@@ -1025,6 +1054,7 @@ def run(chk):
     prog = chk.load()
     chk.guard(rule_registered_once, chk, prog)
     chk.guard(rule_improver_lists_fresh, chk, prog)
+    chk.guard(rule_shift_takes_in_terminal, chk, prog)
     chk.guard(rule_recommended_position, chk, prog)
     chk.guard(rule_writeback, chk, prog, chk.tier)
     chk.guard(rule_dummy_flagged, chk, prog)
